@@ -1,0 +1,107 @@
+//! Verification hooks. Only compiled with `--cfg tera_verif`; everything is off unless a
+//! harness turns it on, and nothing here changes what the engine computes.
+#![allow(missing_docs)]
+use std::cell::{Cell, RefCell};
+use std::sync::atomic::{AtomicBool, Ordering};
+
+static OPTIMIZE: AtomicBool = AtomicBool::new(true);
+
+/// Process-wide switch: when off, `Chunk::optimize` leaves the chunk as compiled.
+pub fn set_optimize(on: bool) {
+    OPTIMIZE.store(on, Ordering::SeqCst);
+}
+
+pub(crate) fn optimize_enabled() -> bool {
+    OPTIMIZE.load(Ordering::SeqCst)
+}
+
+thread_local! {
+    static TRACE: RefCell<Option<Vec<String>>> = const { RefCell::new(None) };
+    static DEPTH: Cell<usize> = const { Cell::new(0) };
+    static DEPTH_MAX: Cell<usize> = const { Cell::new(0) };
+}
+
+/// Start recording VM events on this thread.
+pub fn trace_start() {
+    TRACE.with(|t| *t.borrow_mut() = Some(Vec::new()));
+}
+
+/// Stop recording and return the events (one JSON object per entry).
+pub fn trace_take() -> Vec<String> {
+    TRACE.with(|t| t.borrow_mut().take().unwrap_or_default())
+}
+
+#[inline]
+pub(crate) fn emit(f: impl FnOnce() -> String) {
+    TRACE.with(|t| {
+        if let Some(v) = t.borrow_mut().as_mut() {
+            v.push(f());
+        }
+    });
+}
+
+/// ASCII-only JSON string literal
+pub fn json_str(s: &str) -> String {
+    let mut out = String::with_capacity(s.len() + 2);
+    out.push('"');
+    for c in s.chars() {
+        match c {
+            '"' => out.push_str("\\\""),
+            '\\' => out.push_str("\\\\"),
+            ' '..='~' => out.push(c),
+            _ => {
+                let mut buf = [0u16; 2];
+                for u in c.encode_utf16(&mut buf) {
+                    out.push_str(&format!("\\u{:04x}", u));
+                }
+            }
+        }
+    }
+    out.push('"');
+    out
+}
+
+/// 31-bit FNV-1a, used to identify a chunk by its content
+pub fn hash31(s: &str) -> u32 {
+    let mut h: u32 = 0x811c9dc5;
+    for b in s.bytes() {
+        h ^= b as u32;
+        h = h.wrapping_mul(0x01000193);
+    }
+    h & 0x7fff_ffff
+}
+
+/// RAII gauge of live recursive frames in the parser/compiler
+pub(crate) struct DepthGuard;
+
+impl DepthGuard {
+    pub(crate) fn new() -> Self {
+        DEPTH.with(|d| {
+            let n = d.get() + 1;
+            d.set(n);
+            DEPTH_MAX.with(|m| {
+                if n > m.get() {
+                    m.set(n)
+                }
+            });
+        });
+        DepthGuard
+    }
+}
+
+impl Drop for DepthGuard {
+    fn drop(&mut self) {
+        DEPTH.with(|d| d.set(d.get().saturating_sub(1)));
+    }
+}
+
+/// Reset the recursion gauge's high-water mark
+pub fn depth_reset() {
+    DEPTH.with(|d| d.set(0));
+    DEPTH_MAX.with(|m| m.set(0));
+}
+
+/// High-water mark of the recursion gauge since the last reset
+pub fn depth_max() -> usize {
+    DEPTH_MAX.with(|m| m.get())
+}
